@@ -150,8 +150,10 @@ Definition set_wpods (w : world) (l : list pod) : world :=
   mkWorld (w_spec w) (v_spec w) (w_st w) (v_st w) l (v_pods w) (w_pg w) (v_pg w).
 Definition set_wpg (w : world) (g : option pgphase) : world :=
   mkWorld (w_spec w) (v_spec w) (w_st w) (v_st w) (w_pods w) (v_pods w) g (v_pg w).
-(* a successful UpdateStatus: API server and (cc.cache.Update) the job cache *)
-Definition write (w : world) (s : status) : world := set_st w s s.
+(* a successful UpdateStatus: API server and (cc.cache.Update of the returned
+   object, which carries the API server's current spec) the job cache *)
+Definition write (w : world) (s : status) : world :=
+  mkWorld (w_spec w) (w_spec w) s s (w_pods w) (v_pods w) (w_pg w) (v_pg w).
 
 (* ---------- requests ---------- *)
 Inductive fault := FCreate (t : positive) (i : Z) | FDelete (t : positive) (i : Z)
@@ -473,19 +475,21 @@ Definition leak (w : world) (init : bool) (s : status) : world :=
   if init then set_st w (w_st w) s else w.
 
 Definition sync_job (w : world) (u : updfn) (F : list fault) : world * bool * bool :=
-  let sp := v_spec w in
+  let sp0 := v_spec w in   (* the spec of the job object the state closure holds (ps.job.Job) *)
   (* initiateJob / initJobStatus *)
   let init := phase_beq (st_phase (v_st w)) PhNone in
   if init && fails_status F 0 then (w, true, false)
   else
-    let js := if init then mkStatus PhPending (st_retry (v_st w)) (st_version (v_st w)) (s_min sp) (st_cnt (v_st w))
+    let js := if init then mkStatus PhPending (st_retry (v_st w)) (st_version (v_st w)) (s_min sp0) (st_cnt (v_st w))
                                      (st_term (v_st w)) (st_tsc (v_st w)) (st_tsc_nil (v_st w)) (st_rundur (v_st w))
               else v_st w in
     let w0 := if init then write w js else w in
+    (* after initJobStatus syncJob goes on with the object UpdateStatus returned: the API server's current spec *)
+    let sp := v_spec w0 in
     let nstat := if init then 1 else 0 in
     let w1 := ensure_pg w0 in
     if negb (pg_admitted (v_pg w1)) then
-      let s' := apply_upd u sp js in
+      let s' := apply_upd u sp0 js in
       if status_eq_dec s' js then (w1, false, init)
       else if fails_status F nstat then (leak w1 init s', true, init)
       else (write w1 s', false, true)
@@ -495,7 +499,7 @@ Definition sync_job (w : world) (u : updfn) (F : list fault) : world * bool * bo
       if a_err a then (w2, true, init)
       else
         let ns := mkStatus (st_phase js) (st_retry js) (st_version js) (s_min sp) (a_cnt a) (a_term a) (a_tsc a) false false in
-        let s' := apply_upd u sp ns in
+        let s' := apply_upd u sp0 ns in
         if status_eq_dec js s' then (w2, false, init)
         else if fails_status F nstat then (leak w2 init s', true, init)
         else (write w2 s', false, true).
